@@ -453,12 +453,75 @@ func (e *env) exec(op *Op) (*Obs, *core.VerifSnapshot, []string) {
 	return ob, s, apiIssues
 }
 
+// expectReinject re-derives, from the chain the stub serves, the transactions a
+// reset must offer to the pool again: those of the abandoned blocks that the new
+// branch does not contain.  ok=false when the pool legitimately skips the walk
+// (no old head, direct child, deep jump, unknown blocks, state unavailable).
+func (e *env) expectReinject(op *Op) ([]int, bool) {
+	if op.K != "reorg" || !op.Reset || op.Old < 0 || !e.c.Blocks[op.New].StateOK {
+		return nil, false
+	}
+	old, nw := e.blocks[op.Old], e.blocks[op.New]
+	if old.Hash() == nw.ParentHash() {
+		return nil, false
+	}
+	on, nn := old.NumberU64(), nw.NumberU64()
+	if (on > nn && on-nn > 64) || (nn > on && nn-on > 64) {
+		return nil, false
+	}
+	rem, add := e.chain.GetBlock(old.Hash(), on), e.chain.GetBlock(nw.Hash(), nn)
+	if rem == nil || add == nil {
+		return nil, false
+	}
+	var discarded, included types.Transactions
+	up := func(b *types.Block) *types.Block {
+		if b.NumberU64() == 0 {
+			return nil
+		}
+		return e.chain.GetBlock(b.ParentHash(), b.NumberU64()-1)
+	}
+	for rem.NumberU64() > add.NumberU64() {
+		discarded = append(discarded, rem.Transactions()...)
+		if rem = up(rem); rem == nil {
+			return nil, false
+		}
+	}
+	for add.NumberU64() > rem.NumberU64() {
+		included = append(included, add.Transactions()...)
+		if add = up(add); add == nil {
+			return nil, false
+		}
+	}
+	for rem.Hash() != add.Hash() {
+		discarded = append(discarded, rem.Transactions()...)
+		if rem = up(rem); rem == nil {
+			return nil, false
+		}
+		included = append(included, add.Transactions()...)
+		if add = up(add); add == nil {
+			return nil, false
+		}
+	}
+	inc := map[common.Hash]bool{}
+	for _, tx := range included {
+		inc[tx.Hash()] = true
+	}
+	var out []int
+	for _, tx := range discarded {
+		if !inc[tx.Hash()] {
+			out = append(out, e.idOf[tx.Hash()])
+		}
+	}
+	return out, true
+}
+
 // ---- property oracle --------------------------------------------------------
 
 type oracle struct {
 	e        *env
 	prev     *core.VerifSnapshot
 	gapKnown map[int]bool // accounts whose pending list carries the known gap
+	reinjected int        // re-injection clause: transactions that had to be (and were) pooled again
 	lowNonce int          // observations "pool nonce below the account nonce" (no pending tx): not part of the property
 }
 
@@ -616,6 +679,43 @@ func (o *oracle) check(op *Op, ob *Obs, s *core.VerifSnapshot, api []string) (st
 			st == core.TxStatusQueued && !strings.HasPrefix(w, "queue"),
 			st == core.TxStatusUnknown && w != "":
 			return "status-differs", fmt.Sprintf("Status(tx %d) = %d but the tx is in %q", j, st, w)
+		}
+	}
+	// 3b. re-injection: a transaction of an abandoned block that is valid on the new head is pooled
+	// after the reset, unless the pool had a stated reason to refuse it.  Checked where no limit can
+	// interfere (default-sized pool) and where no other transaction competes for the same nonce.
+	if ids, ok := e.expectReinject(op); ok && e.c.Cfg.GlobalSlots >= 4096 && o.prev != nil {
+		seen := map[[2]uint64]int{}
+		for _, id := range ids {
+			t := e.c.Txs[id]
+			seen[[2]uint64{uint64(t.From), t.Nonce}]++
+		}
+		for _, id := range ids {
+			t := e.c.Txs[id]
+			if !t.Sig || t.Big || t.From >= len(s.Accounts) || seen[[2]uint64{uint64(t.From), t.Nonce}] > 1 {
+				continue
+			}
+			a := s.Accounts[t.From]
+			cost := new(big.Int).Mul(new(big.Int).SetUint64(t.Price), new(big.Int).SetUint64(t.Gas))
+			cost.Add(cost, new(big.Int).SetUint64(t.Value))
+			admissible := t.Gas <= s.MaxGas && (a.Local || new(big.Int).SetUint64(t.Price).Cmp(s.GasPrice) >= 0) &&
+				t.Nonce >= a.StateNonce && cost.Cmp(a.Balance) <= 0 && t.Gas >= t.Intr
+			competitor := false
+			for _, l := range []*core.VerifListView{o.prev.Accounts[t.From].Pending, o.prev.Accounts[t.From].Queue} {
+				if l != nil {
+					for j, n := range l.Nonces {
+						if n == t.Nonce && e.idOf[l.Hashes[j]] != id {
+							competitor = true
+						}
+					}
+				}
+			}
+			if admissible && !competitor && !inAll[e.txs[id].Hash()] {
+				return "reinjection-missed", fmt.Sprintf("tx %d (account %d nonce %d) of the abandoned branch is valid on the new head but is not pooled after the reset", id, t.From, t.Nonce)
+			}
+			if admissible && !competitor {
+				o.reinjected++
+			}
 		}
 	}
 	// 4. limits after a reorg run
